@@ -555,6 +555,8 @@ pub fn parent_main(def: &PropDef, tier: Tier) -> i32 {
     let t0 = Instant::now();
     let seed: u64 = std::env::var("VERIF_SEED").ok().and_then(|s| s.parse().ok()).unwrap_or(0);
     let nshards: u64 = std::env::var("VERIF_SHARDS").ok().and_then(|s| s.parse().ok()).unwrap_or(16);
+    // explicit-state searches are multi-threaded inside one worker (stateright)
+    let nshards = if def.engine == "hist" { 1 } else { nshards };
     let dir = run_dir(def.id, tier);
     let _ = std::fs::remove_dir_all(&dir);
     std::fs::create_dir_all(&dir).expect("run dir");
@@ -683,6 +685,11 @@ pub fn parent_main(def: &PropDef, tier: Tier) -> i32 {
                     Err(_) => confirmed = false,
                 }
             }
+        }
+        if !confirmed && def.id == "C08" {
+            // C08 is about run-to-run determinism: a violation that does not reproduce on replay
+            // *is* the finding (DESIGN §2.3)
+            confirmed = true;
         }
         if !confirmed {
             println!("MACHINERY-ERROR: property={} violation [{fp}] did not reproduce on replay (nondeterministic harness?) case={}", def.id, case);
